@@ -10,6 +10,7 @@ ID = "C15"
 TITLE = "Geometry export round-trips every cell with its indexes"
 MC = {"quick": [("MC_Export", "MC_Export.cfg", 4)], "thorough": [("MC_Export", "MC_Export_thorough.cfg", 16)]}
 TRACE = ("Trace_Cells", "Trace_Cells.cfg")
+THOROUGH_EXTRA_SEEDS = 2
 REQUIRED = ["Export", "via-cli", "fmt-geojson", "fmt-shapefile", "fmt-wkt", "fmt-wkb", "holes",
             "cf1d", "cf2d", "shoc_simple", "shoc_standard", "arakawa", "ugrid"]
 RULE = ("one case = one dataset with lattice geometry (holes, skewed cells, meshes with 3-8 sided faces, multi-kind "
@@ -26,7 +27,7 @@ def cases(tier: str, seed: int) -> list[dict]:
     out = []
     for k, w in enumerate(GW.geo_worlds(tier, seed)):
         CD.add_data_vars(w, rng, rich=False)
-        d = tlc.WORK / "C15" / f"exp-{os.getpid()}-{k}"
+        d = tlc.WORK / "C15" / f"exp-{os.getpid()}-{seed}-{k}"
         ev = [{"a": "Export", "fmt": fmt, "path": str(d / fmt / ("out." + ext))}
               for fmt, ext in (("geojson", "geojson"), ("shapefile", "shp"), ("wkt", "wkt"), ("wkb", "wkb"))]
         if w["conv"] != "arakawa" and (tier == "thorough" or k % 2 == 0):
